@@ -109,17 +109,19 @@ class Effects:
         name = t.name
         if t.kind == "func" and t.fn is not None:
             if t.fn.fq == "vcs.VCSAPI.__call__":
-                cmd = const_str(call_arg(call, t.fn, "cmd_name"))
-                if cmd is None:
+                alts = _const_alternatives(fn, call_arg(call, t.fn, "cmd_name"))
+                if not alts:
                     sites.append(Site(fn, call, "VCS_UNKNOWN", {"cmd": None}))
-                elif cmd in VCS_MUTATING:
-                    sites.append(Site(fn, call, f"VCS_MUTATE:{cmd}", {"cmd": cmd}))
-                elif cmd in VCS_FETCHING:
-                    sites.append(Site(fn, call, f"VCS_FETCH:{cmd}", {"cmd": cmd}))
-                elif cmd in VCS_READING:
-                    sites.append(Site(fn, call, f"VCS_READ:{cmd}", {"cmd": cmd}))
-                else:
-                    sites.append(Site(fn, call, "VCS_UNKNOWN", {"cmd": cmd}))
+                for cmd in alts or []:
+                    extra = {"alternatives": alts} if len(alts) > 1 else {}
+                    if cmd in VCS_MUTATING:
+                        sites.append(Site(fn, call, f"VCS_MUTATE:{cmd}", dict({"cmd": cmd}, **extra)))
+                    elif cmd in VCS_FETCHING:
+                        sites.append(Site(fn, call, f"VCS_FETCH:{cmd}", dict({"cmd": cmd}, **extra)))
+                    elif cmd in VCS_READING:
+                        sites.append(Site(fn, call, f"VCS_READ:{cmd}", dict({"cmd": cmd}, **extra)))
+                    else:
+                        sites.append(Site(fn, call, "VCS_UNKNOWN", dict({"cmd": cmd}, **extra)))
                 opaque.append((call, t.fn))
                 return
             if t.fn.fq == "hooks.run":
@@ -282,6 +284,38 @@ class Effects:
         for sites in self.sites.values():
             out.extend(s for s in sites if s.effect.startswith(prefix))
         return out
+
+
+def _const_alternatives(fn: FunctionInfo, e: T.Optional[ast.AST], depth: int = 0) -> T.Optional[T.List[str]]:
+    """The string constants an expression can denote: a literal, a conditional expression of such, or a local that is
+    assigned exactly once to such.  None when it is anything else."""
+    if e is None or depth > 4:
+        return None
+    c = const_str(e)
+    if c is not None:
+        return [c]
+    if isinstance(e, ast.IfExp):
+        a, b = _const_alternatives(fn, e.body, depth + 1), _const_alternatives(fn, e.orelse, depth + 1)
+        return None if a is None or b is None else a + [x for x in b if x not in a]
+    if isinstance(e, ast.Name):
+        defs = []
+        for n in walk_no_nested(fn.node):
+            if isinstance(n, ast.Assign) and any(isinstance(t, ast.Name) and t.id == e.id for t in n.targets):
+                defs.append(n.value)
+            elif isinstance(n, ast.AnnAssign) and isinstance(n.target, ast.Name) and n.target.id == e.id and n.value is not None:
+                defs.append(n.value)
+            elif isinstance(n, (ast.AugAssign, ast.For, ast.NamedExpr)) and any(isinstance(x, ast.Name) and x.id == e.id and isinstance(x.ctx, ast.Store) for x in ast.walk(n.target)):
+                return None
+        if e.id in fn.all_params or not defs:
+            return None
+        out: T.List[str] = []
+        for d in defs:
+            alt = _const_alternatives(fn, d, depth + 1)
+            if alt is None:
+                return None
+            out += [x for x in alt if x not in out]
+        return out
+    return None
 
 
 def _is_str_method_ctx(call: ast.Call, name: str) -> bool:
